@@ -5,6 +5,8 @@ import (
 	"encoding/json"
 	"errors"
 	"fmt"
+	"github.com/creachadair/jrpc2/channel"
+	"net"
 	"sort"
 	"strings"
 	"time"
@@ -393,7 +395,7 @@ func (w *c05world) do(ev string, tok string) {
 	case "eof":
 		rig.Peer.CloseQuiet()
 	case "fail":
-		rig.Peer.InjectFail(peer.ErrRigFault)
+		rig.Peer.InjectFail(fmt.Errorf("%w: %w", peer.ErrRigFault, net.ErrClosed))
 	case "malformed":
 		rig.Reply(`this is not JSON`)
 	case "cbstart":
@@ -564,7 +566,16 @@ func c05exec(c *vt.Ctx, hist []string, f c05faults, pipeLike bool, ctrl *sched.C
 			faults = append(faults, vchan.Fault{Op: vchan.OpSend, N: f.sendK, Err: peer.ErrRigFault})
 		}
 		if f.recvK > 0 {
-			faults = append(faults, vchan.Fault{Op: vchan.OpRecv, N: f.recvK, Err: peer.ErrRigFault, Sticky: true})
+			// the failure comes in the flavours a transport reports: a plain error, or one that
+			// (also) says "closed" - the connection under the channel was closed by someone else
+			rerr := error(peer.ErrRigFault)
+			switch (f.recvK + len(hist)) % 3 {
+			case 1:
+				rerr = fmt.Errorf("%w: %w", peer.ErrRigFault, net.ErrClosed)
+			case 2:
+				rerr = fmt.Errorf("%w: %w", peer.ErrRigFault, channel.ErrClosed)
+			}
+			faults = append(faults, vchan.Fault{Op: vchan.OpRecv, N: f.recvK, Err: rerr, Sticky: true})
 		}
 		rig := peer.NewClientRig(c, ctrl, peer.ClientOpts{PipeLike: pipeLike, Faults: faults})
 		w := &c05world{c: c, rig: rig, cancels: map[string]context.CancelFunc{}, ids: map[string]string{}}
